@@ -312,7 +312,7 @@ rc::Gen<GCase> gen_case(const Profile& p, const std::vector<int>& kinds)
         rc::gen::set(&GCase::kind, rc::gen::elementOf(kinds)),
         rc::gen::set(&GCase::big, rc::gen::map(uni_int(0, 99), [pct = p.big_pct](int v) { return v < pct; })),
         rc::gen::set(&GCase::sync, rc::gen::map(uni_int(0, 3), [](int v) { return v == 0; })),
-        rc::gen::set(&GCase::types, weighted<int>({{4, 0}, {1, 1}})),
+        rc::gen::set(&GCase::types, weighted<int>({{5, 0}, {2, 1}, {2, 2}})),
         rc::gen::set(&GCase::cap, weighted<int>(p.caps)),
         rc::gen::set(&GCase::extra, weighted<int>({{3, 1}, {4, 2}, {3, 3}})),
         rc::gen::set(&GCase::mlf_idx, weighted<int>({{10, 0}, {1, 1}, {1, 2}, {2, 3}, {2, 4}, {1, 5}, {1, 6}, {1, 7}})),
